@@ -168,7 +168,13 @@ func (cc *chainCtx) decompose(v ssa.Value) []bItem {
 		}
 		callee := c.StaticCalleeOf(&x.Call)
 		if callee != nil && callee.Pkg == c.Pkg && callee.Signature.Recv() == nil {
-			switch callee.Name() {
+			role := callee.Name()
+			for _, n := range []string{"appendString", "appendBytes", "appendUint16", "packUint16"} {
+				if callee == c.Func(n) {
+					role = n
+				}
+			}
+			switch role {
 			case "appendString":
 				return append(cc.decompose(x.Call.Args[0]), bItem{Kind: "string", Val: x.Call.Args[1]})
 			case "appendBytes":
